@@ -8,7 +8,8 @@ import tempfile
 from .tlc import SPEC_DIR, JAR, CM, scratch_root, runcfg_module
 
 DEFAULT_RUNCFG = {'Wins': {(97, 36, 91)}, 'MaxD': 1, 'OpSel': {'concat'}, 'PoolSel': {'class'},
-                  'Quants': {('Optional', 0, 1, True)}, 'Names': {'n'}, 'Strs': {(97,)}}
+                  'Quants': {('Optional', 0, 1, True)}, 'Names': {'n'}, 'Strs': {(97,)},
+                  'CArgs': {('c', 97)}, 'MaxFrom': 1, 'CWin': (97, 98), 'CSel': {'alg'}}
 
 
 def setup():
